@@ -192,8 +192,9 @@ class Importer:
             >>> importer.import_string(content)
             >>> document = importer.import_string(content)
         """
-        lines = text.splitlines()
-        reader = csv.reader(lines, delimiter='\t', quoting=csv.QUOTE_NONE)
+        # Read the lines exactly as import_file does (only \n, \r and \r\n end a line). str.splitlines() also breaks
+        # lines at form feeds, U+2028, U+0085, ... which are ordinary characters inside a Humdrum cell.
+        reader = csv.reader(io.StringIO(text, newline=''), delimiter='\t', quoting=csv.QUOTE_NONE)
         return self.run(reader)
 
     def get_error_messages(self) -> str:
